@@ -45,6 +45,28 @@ type PropSpec struct {
 	// ClaimStatic: substrings of the package-wide static obligations (static#frame:stable:<field>,
 	// static#iface-equiv:<types>) this property's argument uses; the others belong to other properties.
 	ClaimStatic []string `json:"claim_static"`
+	// SafetyTotal: functions whose crash-freedom IS the property (e.g. "parsing never crashes"): every
+	// index / slice / nil / assertion / division obligation generated for them must discharge, also one
+	// that did not exist when the baseline was recorded (a newly written unsafe operation). Groups that
+	// were undecided when the baseline was recorded are listed in the baseline file with a leading "?".
+	SafetyTotal []string `json:"safety_total"`
+}
+
+func (ps *PropSpec) safetyTotal(group string) bool {
+	i := strings.Index(group, "#safe:")
+	if i < 0 || strings.Contains(group, "#safe:ovf") {
+		return false
+	}
+	fn := group[:i]
+	if j := strings.Index(fn, "/"); j >= 0 {
+		fn = fn[:j]
+	}
+	for _, k := range ps.SafetyTotal {
+		if k == fn {
+			return true
+		}
+	}
+	return false
 }
 
 // claimable reports whether an obligation group belongs to the property being rebaselined.
@@ -130,12 +152,28 @@ func loadBaseline(id string) ([]string, error) {
 	var out []string
 	for _, l := range strings.Split(string(data), "\n") {
 		l = strings.TrimSpace(l)
-		if l == "" || strings.HasPrefix(l, "# ") {
+		if l == "" || strings.HasPrefix(l, "# ") || strings.HasPrefix(l, "?") {
 			continue
 		}
 		out = append(out, l)
 	}
 	return out, nil
+}
+
+// loadKnownUndecided returns the safety groups recorded as undecided ("? group" lines) in a baseline.
+func loadKnownUndecided(id string) map[string]bool {
+	out := map[string]bool{}
+	data, err := os.ReadFile(filepath.Join(verifDir, "baseline", id+".txt"))
+	if err != nil {
+		return out
+	}
+	for _, l := range strings.Split(string(data), "\n") {
+		l = strings.TrimSpace(l)
+		if strings.HasPrefix(l, "?") {
+			out[strings.TrimSpace(l[1:])] = true
+		}
+	}
+	return out
 }
 
 var findingRe = regexp.MustCompile(`^(finding|fixed):\s+property=(\S+)\s+(?:obligation=(\S+)\s+)?(.*)$`)
@@ -338,10 +376,18 @@ func cmdCheck(args []string) int {
 				inBase0[f.Group] = true
 			}
 		}
+		knownUnd0 := loadKnownUndecided(id)
 		for _, it := range items {
-			if !inBase0[it.o.Group] {
+			if !inBase0[it.o.Group] && !(ps.safetyTotal(it.o.Group) && !knownUnd0[it.o.Group]) {
 				it.quickOnly = true
 			}
+		}
+	}
+	for _, it := range items {
+		// overflow side obligations are never claimed (mode int treats machine integers as mathematical):
+		// one short attempt each, so that they do not load the machine while the others are solved
+		if strings.Contains(it.o.Group, "#safe:ovf") {
+			it.quickOnly = true
 		}
 	}
 	solveAll(items, outDir, timeout, 12)
@@ -396,6 +442,28 @@ func cmdCheck(args []string) int {
 				}
 				if (prev || maxMs*3 <= int64(timeout)*1000) && !strings.Contains(gname, "#safe:ovf") && ps.claimable(gname) {
 					fmt.Println(gname)
+				}
+			} else if ps.safetyTotal(gname) {
+				fmt.Println("? " + gname)
+			}
+			if strings.Contains(gname, "#inv-entry:") || strings.Contains(gname, "#inv-keep:") {
+				claimed := false
+				if g.discharged {
+					var mx int64
+					for _, o := range g.obls {
+						if o.Ms > mx {
+							mx = o.Ms
+						}
+					}
+					claimed = mx*3 <= int64(timeout)*1000
+					for _, bg := range baseline {
+						if bg == gname {
+							claimed = true
+						}
+					}
+				}
+				if !claimed {
+					fmt.Fprintf(os.Stderr, "UNCLAIMED INVARIANT OBLIGATION (everything proved after this loop rests on it): %s discharged=%v\n", gname, g.discharged)
 				}
 			}
 		}
@@ -506,6 +574,20 @@ func cmdCheck(args []string) int {
 			continue
 		}
 		report(bg, g, "an obligation of this group no longer discharges")
+	}
+	// safety-total functions: a failing safety group that the baseline does not know is a new unsafe operation
+	{
+		inB := map[string]bool{}
+		for _, bg := range baseline {
+			inB[bg] = true
+		}
+		knownUnd := loadKnownUndecided(id)
+		for _, gname := range order {
+			if ps.safetyTotal(gname) && !inB[gname] && !knownUnd[gname] && !groups[gname].discharged {
+				nObl++
+				report(gname, groups[gname], "a safety obligation that did not exist when the baseline was recorded does not discharge (a newly written operation that may panic)")
+			}
+		}
 	}
 	// findings that are listed but whose obligation is not in the baseline still print when they fail
 	for _, f := range findings {
